@@ -7,9 +7,11 @@
 // four-valued Verdict:
 //
 //	Accept       well-formed; the tree is what the RFCs say the bytes mean
-//	MayReject    well-formed and a tree exists, but the property statements do
-//	             not promise acceptance (only: compression-pointer chains in a
-//	             domain-name list). A decoder may fail; if it accepts it must
+//	MayReject    framing and field layout are satisfied and a tree exists, but an
+//	             RFC sentence makes refusing the input defensible (compressed
+//	             names, empty "one or more" lists, zero-length class items, DUID
+//	             length outside 1..128, relay message without relay-msg, … — see
+//	             MayRejectClasses). A decoder may fail; if it accepts it must
 //	             produce exactly this tree.
 //	Unspecified  the RFC text assigns no reading (see UnspecifiedClasses); a
 //	             decoder may do either, only stability is demanded of it
@@ -190,24 +192,56 @@ const (
 	WhyPrefixLenRange      = "IAPREFIX: prefix length > 128"
 	WhyPrefixZeroLenBits   = "IAPREFIX: prefix length 0 with non-zero address bits"
 	Why4RDPrefixLenRange   = "4RD-map-rule: prefix4 length > 32 or prefix6 length > 128"
-	WhyNamePtrChain        = "name: compression pointer chain" // MayReject, not Unspecified
 )
 
-// Leniencies documents where this decoder deliberately accepts more than a
-// strict reading of an RFC sentence might, because the sentence is not a layout
-// rule named by the property statement (see the final report of the check).
+// Reason tags of the MayReject classes: the framing and the option's field
+// layout are satisfied and a reading exists, but a sentence of the RFC makes
+// refusing the input defensible. A decoder may reject; if it accepts, its value
+// must equal the reference tree.
+const (
+	WhyNamePtrChain        = "name: compression pointer chain"                           // RFC 8415 §10: names MUST NOT be compressed; §8a.7
+	WhyNameCompressed      = "name: compression pointer"                                 // RFC 8415 §10 (RFC 3315 §8)
+	WhyNameRoot            = "name: root name (zero labels)"                             // not a usable search domain / host name
+	WhyNamePartial         = "name: trailing partial name outside the FQDN option"       // RFC 3646 §4, RFC 5908 §4.3: complete names; only RFC 4704 §4.2 defines partial names
+	WhyNameMultiple        = "name: not exactly one name where a single name is defined" // RFC 4704 §4 (more than one), RFC 5908 §4.3 (zero or more than one)
+	WhyDomainListEmpty     = "domain-list: no name"                                      // RFC 3646 §4: "list of domain names"
+	WhyDUIDLength          = "DUID: empty variable part or longer than 128 octets"       // RFC 8415 §11.1
+	WhyOROEmpty            = "ORO: no requested option code"                             // RFC 8415 §21.7
+	WhyDNSEmpty            = "dns-servers: no address"                                   // RFC 3646 §3
+	Why4o6Empty            = "dhcp4o6-servers: no address"                               // RFC 7341 §7.2 explicitly allows it, kept two-valued for symmetry with option 23
+	WhyUserClassZeroItem   = "user-class: zero-length user class data item"              // RFC 8415 §21.15
+	WhyVendorClassZeroItem = "vendor-class: zero-length vendor class data item"          // RFC 8415 §21.16
+	WhyVendorOptsEmpty     = "vendor-opts: no sub-option"                                // RFC 8415 §21.17: the option exists to carry vendor options
+	WhyBootParamEmpty      = "bootfile-param: no parameter"                              // RFC 5970 §3.2
+	WhyBootParamZeroItem   = "bootfile-param: zero-length parameter"                     // RFC 5970 §3.2
+	WhyNTPSourceCount      = "NTP: not exactly one time source sub-option"               // RFC 5908 §4: "MUST include one, and only one, time source suboption"
+	Why4RDRuleCount        = "4RD: no map rule or more than one non-map rule"            // RFC 7600 §4.9
+	WhyRelayNoMsg          = "relay message without a relay-msg option"                  // RFC 8415 §9.1, §21.10
+	WhyV4Lenient           = "DHCPv4-msg: no End option, octets after End, or hlen > 16" // RFC 2131 §2, §4.1
+)
+
+// MayRejectClasses lists the reason tags of the MayReject verdict.
+func MayRejectClasses() []string {
+	return []string{
+		WhyNamePtrChain, WhyNameCompressed, WhyNameRoot, WhyNamePartial, WhyNameMultiple, WhyDomainListEmpty,
+		WhyDUIDLength, WhyOROEmpty, WhyDNSEmpty, WhyUserClassZeroItem, WhyVendorClassZeroItem,
+		WhyVendorOptsEmpty, WhyBootParamEmpty, WhyBootParamZeroItem, WhyNTPSourceCount, Why4RDRuleCount,
+		WhyRelayNoMsg, WhyV4Lenient,
+	}
+}
+
+// Leniencies documents what this decoder still *requires* a library to accept
+// (verdict Accept) although a reader might expect a stricter rule; everything
+// for which an RFC sentence makes rejection defensible is MayReject instead
+// (see MayRejectClasses).
 func Leniencies() []string {
 	return []string{
-		"DUID: total length not limited to 1..128 octets after the type (RFC 8415 §11.1); empty opaque/EN/LL/LLT variable parts accepted",
-		"DUID-UUID: exactly 16 octets required (RFC 6355 §4)",
-		"ORO, dns-servers, dhcp4o6-servers, domain-list, bootfile-param, NTP, 4RD, vendor-opts: zero elements accepted",
-		"user-class / vendor-class items and bootfile-param items of length 0 accepted",
-		"domain-list (24), NTP server FQDN (56/3): a trailing partial name and single-level compression pointers are accepted as in FQDN (39), one shared name-list reader",
-		"FQDN (39), NTP server FQDN (56/3): more than one name accepted (read as a list); root names (a bare 00) accepted",
-		"FQDN flags, 4RD rule flags, status codes, message types, hop count, option placement (which option may appear in which message/container), option cardinality: not checked (not layout)",
-		"relay message without a relay-msg option accepted; options after relay-msg accepted",
-		"4RD non-map rule: traffic-class octet ignored unless T=1; reserved flag bits ignored",
-		"DHCPv4-msg (87): whatever v4ref.Decode accepts",
+		"dhcp4o6-servers (88) with no address is Accept: RFC 7341 §7.2 gives the option a minimal length of 0 (the client then uses the well-known multicast address)",
+		"empty opaque values are Accept: interface-id, remote-id (enterprise number only), bootfile-url, status message, client link-layer address (type only), unknown options of length 0",
+		"FQDN (39): an empty Domain Name field and a trailing partial name are Accept (RFC 4704 §4.2)",
+		"not layout, hence never a reason to reject or to allow rejection: FQDN flags, 4RD reserved flag bits and the traffic-class octet when T=0, status code values, message type values (any type other than 12/13 is a plain message), hop count, which option may appear in which message/container, repeated options",
+		"a relay message may carry options after (or several) relay-msg options",
+		"DUID-UUID: exactly 16 octets required (RFC 6355 §4) — strict, listed for completeness",
 	}
 }
 
